@@ -27,6 +27,8 @@ var universeC07 = []string{
 	`{"b":null}`, `{"b":false}`, `{"a":null,"b":1}`, `{"a":1,"b":null}`, `[2,1]`, `[{"a":null}]`, `[{"b":null}]`, `[1,[2]]`, `[1,[2,null]]`, `"1"`, `{"a":{"c":1}}`, `{"a":{"b":null}}`,
 	// representation: strings that start with a replacement character, DEL or an astral character; numbers in exponent form and beyond 2^53
 	`"\ufffd"`, `"\ufffdabc"`, `"\u007f"`, `"𝄞"`, "1e21", "1e-7", "9007199254740993", "0.30000000000000004",
+	// arrays and objects one of which is a prefix / subset of the other
+	"[1]", "[1,2,3]", `{"a":1,"b":null,"c":2}`, `[[1,2],[1]]`, `[[1],[1,2]]`, `"ab"`, `"abc"`,
 }
 
 var binOpsC07 = []string{"||", "&&", "==", "!=", "<", "<=", ">", ">="}
